@@ -13,6 +13,7 @@ from hypothesis import strategies as st
 from vlib.core import Outcome, fail, sut, is_raised, HERE
 from vlib import typegen as tg
 from vlib import mat, hybgen, assign
+from checks import c01
 
 ID = "C20"
 LEVEL = "exploration"
@@ -46,7 +47,7 @@ def budget(tier):
 
 def essential_labels(tier):
     return ["root:struct", "root:array", "root:hybrid", "struct_2plus_dynamic_fields", "shared_buffer", "two_buffers", "has_ref",
-            "fresh_interpreter", "buf:bytearray", "prehistory_frees"]
+            "fresh_interpreter", "buf:bytearray", "prehistory_frees", "group_with_nested_part", "group_with_referenced_child"]
 
 
 @st.composite
@@ -261,14 +262,54 @@ def _run(case, modname):
             return fail("construct_value", f"object {i}: {g if is_raised(g) else tg.first_diff(spec_of(o, b), exps[i], g)}", "construct", labels)
     free_before = [int(b.get_free()) for b in bufs]
     cap_before = [int(b.capacity) for b in bufs]
-    blob = sut(pickle.dumps, tuple(objs), case["proto"])
+    # the numpy views of every scalar array are read once before pickling (whatever a handle caches must not be
+    # pickled as a detached copy)
+    for i, (o, b, x) in enumerate(zip(case["objs"], built, objs)):
+        r = c01.check_nplike(xobj(o, x), b.node if o["kind"] == "hybrid" else b, exps[i])
+        if r is not None:
+            return fail("construct_value", f"object {i}: numpy view before pickling: {r.detail}", "construct", labels)
+    # extras pickled in the same group: nested dressed parts of hybrid objects and a same-buffer object bound to a
+    # Ref field (these are 'not movable' objects; they shared storage with their owner and must still do so)
+    extras = []  # (kind, owner index, field xo name, object)
+    for i, (o, b, x) in enumerate(zip(case["objs"], built, objs)):
+        if o["kind"] != "hybrid":
+            continue
+        for f in o["h"]["fields"]:
+            py = hybgen.pyname(o["h"], f["n"])
+            if f["t"]["k"] == "hybrid" and len(extras) < 3:
+                extras.append(("part", i, f["n"], getattr(x, py)))
+            elif f["t"]["k"] == "ref" and len(extras) < 3 and not fp:  # (an allocation would overwrite an object placed in free space)
+                kn = b.kids[f["n"]]
+                child = sut(lambda: kn.cls(**hybgen.init_kwargs(kn, hybgen.expected(kn.h, exps[i][f["n"]]) if exps[i][f["n"]] is not None else _any_value(kn.h)), _buffer=x._buffer))
+                if is_raised(child):
+                    continue
+                r = sut(setattr, x, py, child)
+                if is_raised(r):
+                    return fail("ref_assign_raised", f"object {i}.{py}: {r}", r.key, labels)
+                exps[i][f["n"]] = mat.walk(child._xobject, kn.node)
+                extras.append(("child", i, f["n"], child))
+    if extras:
+        labels.add("group_with_nested_part" if any(e[0] == "part" for e in extras) else "group_with_referenced_child")
+        if any(e[0] == "child" for e in extras):
+            labels.add("group_with_referenced_child")
+        free_before = [int(b.get_free()) for b in bufs]
+        cap_before = [int(b.capacity) for b in bufs]
+    blob = sut(pickle.dumps, tuple(objs) + tuple(e[3] for e in extras), case["proto"])
     if is_raised(blob):
         return fail("pickle_raised", f"{blob}", blob.key + "|" + _kinds(case), labels)
-    objs2 = sut(pickle.loads, blob)
-    if is_raised(objs2):
-        return fail("unpickle_raised", f"{objs2}", objs2.key + "|" + _kinds(case), labels)
-    if len(objs2) != len(objs):
-        return fail("unpickle_count", f"{len(objs2)} objects for {len(objs)}", "", labels)
+    allobjs2 = sut(pickle.loads, blob)
+    if is_raised(allobjs2):
+        return fail("unpickle_raised", f"{allobjs2}", allobjs2.key + "|" + _kinds(case), labels)
+    if len(allobjs2) != len(objs) + len(extras):
+        return fail("unpickle_count", f"{len(allobjs2)} objects for {len(objs) + len(extras)}", "", labels)
+    objs2 = allobjs2[: len(objs)]
+    for (kind_, oi, fname, orig_), got_ in zip(extras, allobjs2[len(objs):]):
+        owner2 = objs2[oi]
+        fx = sut(lambda: getattr(owner2._xobject, fname))
+        if is_raised(fx) or fx is None or not hasattr(got_, "_xobject"):
+            return fail("extra_unusable", f"{kind_} of object {oi}.{fname}: {fx!r} / {type(got_).__name__}", kind_, labels)
+        if got_._xobject._buffer is not owner2._xobject._buffer or int(got_._xobject._offset) != int(fx._offset):
+            return fail("sharing_lost", f"the {kind_} {fname} of object {oi} was pickled with its owner; afterwards it lives at {got_._xobject._offset} (same buffer: {got_._xobject._buffer is owner2._xobject._buffer}), the owner's field is at {fx._offset}", kind_, labels)
     # ---- equal at every field
     for i, (o, b, x) in enumerate(zip(case["objs"], built, objs2)):
         if type(x) is not type(objs[i]):
@@ -339,6 +380,9 @@ def _run(case, modname):
                 return fail("not_independent", f"write to the {side} of object {i} at {path} changed the other side: {go if is_raised(go) else tg.first_diff(sp, m_other, go)}", side, labels)
         exps[i] = m_copy  # what objs2[i] must read from here on
         labels.add("write_checked")
+        r = c01.check_nplike(xobj(o, objs2[i]), node, m_copy)
+        if r is not None:
+            return fail("numpy_view_detached", f"object {i} after a write at {path}: to_nplike of the unpickled object: {r.detail}", "", labels)
     # ---- the unpickled buffers are working allocators, and behave like the originals
     for k, nb in newbuf.items():
         for size, al in ((1, False), (24, True), (max(8, cap_before[k] // 2), True), (cap_before[k] + 16, True)):
@@ -380,6 +424,28 @@ def _run(case, modname):
         if r is not None:
             return r
     return Outcome(True, labels=sorted(labels), nontrivial=nontrivial)
+
+
+def _any_value(h):
+    """a plain value for a hybrid class (strings empty, dynamic arrays of extent 1)"""
+    out = {}
+    for f in h["fields"]:
+        t = f["t"]
+        if t["k"] == "scalar":
+            out[f["n"]] = 1.0 if t["t"].startswith("Float") else 1
+        elif t["k"] == "string":
+            out[f["n"]] = "c"
+        elif t["k"] == "array":
+            shape = [1 if d is None else d for d in t["shape"]]
+            n = 1
+            for d in shape:
+                n *= d
+            out[f["n"]] = {"shape": shape, "flat": [(1.0 if t["item"]["t"].startswith("Float") else 1)] * n}
+        elif t["k"] == "hybrid":
+            out[f["n"]] = _any_value(t["h"])
+        else:
+            out[f["n"]] = None
+    return out
 
 
 def _other_value(ls, new, cur):
